@@ -183,8 +183,14 @@ let () =
       end else begin
         if kind = "clean" then mismatch id (Printf.sprintf "a Set over the accepted alphabet was refused with %s: %s" code paths);
         (* a path that was stored must have been reported back *)
-        if stored <> "." then
-          specviol id "c16_stored_but_not_reported" (Printf.sprintf "Set answered %s although it stored %s (updates %s deletes %s)" code stored paths dels);
+        if stored <> "." then begin
+          (* known shape: a delete whose key value is EMPTY is accepted and stored, then the SetResponse cannot be built
+             from the stored text (parseKey: no key value); anything else is a new violation *)
+          let empty_delete_key = List.exists (fun v -> v = []) (all_values ds) in
+          let only_empty_is_odd = List.for_all (fun v -> v = [] || index_allowed v) (all_values ds) && not bad_update in
+          specviol id (if empty_delete_key && only_empty_is_odd then "c16_delete_empty_key_stored_unreported" else "c16_stored_but_not_reported")
+            (Printf.sprintf "Set answered %s although it stored %s (updates %s deletes %s)" code stored paths dels)
+        end;
         if code = "PANIC" then mismatch id "Set panicked";
         if kind = "delete" && not bad_update then stat "e2e.delete.refused"
       end
